@@ -246,6 +246,7 @@ package drpcwire
 //@   loop 1 invariant [ri]   readerInv(r) && r == r0
 //@   loop 1 invariant [pkt]  (idZero(pkt.ID) || pkt.ID == r.id) && len(pkt.Data) <= max0(rdM(r))
 //@   loop 1 invariant [mono] idLeq(old(r.id), r.id) && (idZero(pkt.ID) || idLeq(old(r.id), pkt.ID))
+//@   loop 1 invariant [noalias] arr(pkt.Data) == 0 || (arr(pkt.Data) != arr(r.buf) && arr(pkt.Data) != arr(r.curr))
 //@   loop 1 invariant [prov] (fresh(r.buf) || arr(r.buf) == 0 || (arr(r.buf) == arr(old(r.buf)) && off(r.buf) == off(old(r.buf)) && cap(r.buf) == cap(old(r.buf)))) &&
 //@                           (fresh(pkt.Data) || arr(pkt.Data) == 0 || (arr(pkt.Data) == arr(buf) && off(pkt.Data) == off(buf) && cap(pkt.Data) == cap(buf)))
 //@   loop 1 step [more]  !ok ==> r.id == gid && pkt.ID == gpkt.ID && pkt.Kind == gpkt.Kind && pkt.Control == gpkt.Control && pkt.Data == gpkt.Data
@@ -262,6 +263,7 @@ package drpcwire
 //@   site (*Class).New assert [size-justified]         arg1 == "data overflow (len:%v)" ==> len(pkt.Data) > rdM(r)
 //@   site (*Class).New assert [known-exit]             arg1 == "data overflow" || arg1 == "id monotonicity violation (fr:%v r:%v)" || arg1 == "packet kind change (fr:%v pkt:%v)" || arg1 == "data overflow (len:%v)"
 //@   ensures [ri]          err == nil ==> readerInv(r)
+//@   ensures [C01.noalias] err == nil ==> arr(pkt.Data) == 0 || (arr(pkt.Data) != arr(r.buf) && arr(pkt.Data) != arr(r.curr))
 //@   ensures [deliver]     err == nil ==> pkt.ID.Stream == r.id.Stream && pkt.ID.Message + 1 == r.id.Message
 //@   ensures [deliver-geq] err == nil ==> idLeq(old(r.id), pkt.ID) && len(pkt.Data) <= max0(rdM(r))
 //@   ensures [C09.id-monotone] idLeq(old(r.id), r.id)
